@@ -134,6 +134,8 @@ type Exec struct {
 	caseTag  string
 	calls    []*callRec
 	lastArgStart []int
+	lastHeadVars []*Term
+	reqTerms []*Term
 	callSeq  int
 	usedContracts map[string]bool
 	genOwners map[*GenFunc]*FuncInfo
